@@ -327,4 +327,58 @@ theorem out_of_range_fn_stale (w0 : World) (ops ops2 : List Op) (j : Nat) (h0 : 
   have := outcome_event_unique _ hu _ hst' _ hem p.1 rfl rfl
   cases this
 
+/-! ## Non-vacuity (Part A) -/
+
+/-- two transceivers, three bursts queued at transceiver 0 (due / passed / ahead), one tick at
+frame 100: burst 0 is emitted, burst 1 reported stale, burst 2 stays queued; one stale report, one
+datagram forwarded to the peer; the clock advances -/
+example :
+    (ghost (demoWorld 100) (demoArrivals ++ [Op.tick]) 0).ids = [2] ∧
+    (ghost (demoWorld 100) (demoArrivals ++ [Op.tick]) 0).log =
+      [Event.accepted 0 (demoMsg 100), Event.accepted 1 (demoMsg 90), Event.accepted 2 (demoMsg 110),
+       Event.emitted 0 100, Event.stale 1 100] ∧
+    queueOf (run (demoWorld 100) (demoArrivals ++ [Op.tick])).1 0 = [demoMsg 110] ∧
+    (step (run (demoWorld 100) demoArrivals).1 Op.tick).stale = 1 ∧
+    (step (run (demoWorld 100) demoArrivals).1 Op.tick).exc = none ∧
+    (step (run (demoWorld 100) demoArrivals).1 Op.tick).out.length = 1 ∧
+    (run (demoWorld 100) (demoArrivals ++ [Op.tick])).1.clkSrc = some 101 := by
+  decide +kernel
+
+/-- the hypotheses of `stale_iff_passed` / `passed_is_stale` / `eventually_resolved` are satisfiable -/
+example : Event.stale 1 100 ∈ (ghost (demoWorld 100) (demoArrivals ++ [Op.tick]) 0).log :=
+  (passed_is_stale (demoWorld 100) demoArrivals 0 rfl 100 (by decide +kernel) (by decide +kernel)
+    (by decide +kernel) (by decide +kernel) (1, demoMsg 90) (by decide +kernel) 90 rfl 10
+    (by decide) (by decide)).1
+
+example : Steady 0 (run (demoWorld 100) demoArrivals).1 [Op.tick, Op.data 1 [], Op.tick] := by
+  simp only [Steady]
+  refine ⟨?_, ?_, ?_, ?_, ?_, ?_, ?_, ?_, ?_, ?_, ?_, ?_, ?_, ?_⟩ <;>
+    first | decide +kernel | (intro _ h; cases h) | (intro h; cases h) | (intro _; decide +kernel)
+
+/-- the wrap: clock at 2715647, burst for FN 0 — not stale at tick 2715647, emitted at the next tick -/
+example :
+    (ghost (demoWorld 2715647) [Op.data 0 (demoBurst 0), Op.tick] 0).ids = [0] ∧
+    (ghost (demoWorld 2715647) [Op.data 0 (demoBurst 0), Op.tick] 0).log = [Event.accepted 0 (demoMsg 0)] ∧
+    (run (demoWorld 2715647) [Op.data 0 (demoBurst 0), Op.tick]).1.clkSrc = some 0 ∧
+    (ghost (demoWorld 2715647) [Op.data 0 (demoBurst 0), Op.tick, Op.tick] 0).log =
+      [Event.accepted 0 (demoMsg 0), Event.emitted 0 0] ∧
+    (ghost (demoWorld 2715647) [Op.data 0 (demoBurst 0), Op.tick, Op.tick] 0).ids = [] := by
+  decide +kernel
+
+/-- POWEROFF of the managing BTS transceiver clears what is queued; afterwards nothing is accepted -/
+example :
+    CtrlReq demoPoweroff [lit "POWEROFF"] ∧
+    (ghost (demoWorld 100) (demoArrivals ++ [Op.ctrl 0 5800 demoPoweroff]) 0).ids = [] ∧
+    (ghost (demoWorld 100) (demoArrivals ++ [Op.ctrl 0 5800 demoPoweroff]) 0).log.drop 3 =
+      [Event.cleared 0, Event.cleared 1, Event.cleared 2] ∧
+    (ghost (demoWorld 100) (demoArrivals ++ [Op.ctrl 0 5800 demoPoweroff, Op.data 0 (demoBurst 100)]) 0).ids = [] := by
+  refine ⟨⟨lit "CMD POWEROFF\x00", ?_, ?_, ?_⟩, ?_, ?_, ?_⟩ <;> decide +kernel
+
+/-- SETFORMAT 1: version-0 datagrams are no longer accepted, queued ones stay -/
+example :
+    CtrlReq demoSetformat1 [lit "SETFORMAT", lit "1"] ∧ toInt (lit "1") = .ok 1 ∧
+    (ghost (demoWorld 100) (demoArrivals ++ [Op.ctrl 0 5800 demoSetformat1, Op.data 0 (demoBurst 100)]) 0).ids
+      = [0, 1, 2] := by
+  refine ⟨⟨lit "CMD SETFORMAT 1\x00", ?_, ?_, ?_⟩, ?_, ?_⟩ <;> first | decide +kernel | rfl
+
 end OsmoVerif.Props.C03
